@@ -106,16 +106,30 @@ Definition conf_numeric_unit (ds : list N) (sp : N) (w : list N) : bool :=
 
 Definition no_double_dot (line : list N) : bool := negb (contains [46; 46] line).
 
-(* section-dependent side conditions.  ~Curves: no ".." in the line.  Outside ~Parameter the
+(* ~Curves: the mnemonic-with-dots special case is not triggered: no non-blank character is
+   followed by "..", or the first ".." is not before the last colon (it is in the description) *)
+Definition curves_plain (line : list N) : bool :=
+  negb (re_search rx_double_dot_search line
+        && lt_opt (find [46; 46] line) (rfind_char 58 line)).
+
+(* section-dependent side conditions.  ~Curves: curves_plain (e.g. no ".." in the line).  Outside ~Parameter the
    description has no colon (the LAST colon separates).  In ~Parameter every colon of the
    value is a clock colon and either the separating colon is set off by a blank on both
    sides (then the description may contain colons) or unit and description are colon-free. *)
 Definition sect_ok (is_curves is_param : bool) (line u v p3 p4 d : list N) : bool :=
-  (negb is_curves || no_double_dot line) &&
+  (negb is_curves || curves_plain line) &&
   (if is_param
    then clock_colons v && ((negb (is_nil p3) && negb (is_nil p4))
                            || (negb (in_str 58 u) && negb (in_str 58 d)))
    else negb (in_str 58 d)).
+
+(* side conditions for units made of digits only: description colon-free in every section *)
+Definition sect_ok_plain (is_curves is_param : bool) (line v d : list N) : bool :=
+  (negb is_curves || curves_plain line) && negb (in_str 58 d) && (negb is_param || clock_colons v).
+
+(* a unit made of digits only is told from "1000 lbf" by an empty value or two blanks *)
+Definition conf_digit_unit (u p2 v : list N) : bool :=
+  negb (is_nil u) && all_digit u && (is_nil v || Nat.leb 2 (List.length p2)).
 
 Definition hline_eqb (a b : hline) : bool :=
   str_eqb (h_name a) (h_name b) && str_eqb (h_unit a) (h_unit b)
